@@ -172,7 +172,7 @@ def classify_crash(text):
     tail = text[m.end():]
     frames = re.findall(r"^([\w\./\-\(\)\*\[\]]+)\(.*\)\n\t(/[^\s:]+):\d+", tail, re.M)
     for fn, file in frames:
-        if file.startswith("/repo/") and "zzverif_" not in file and not file.endswith("_test.go"):
+        if file.startswith(REPO.rstrip("/") + "/") and "zzverif_" not in file and not file.endswith("_test.go"):
             return "library", msg
         if "zzverif_" in file or file.startswith(VERIF):
             return "harness", msg
